@@ -31,40 +31,51 @@ def default_out_opts():
         v |= int(m2.group(1).replace('_', ''), 0)
     return v
 
-def cap_pool(rng, tier):
-    pool = [0, ALL, ZMO, ZMOD, WBC, KPV2, DAX, ZMO | ZMOD | WBC | KPV2 | DAX, ALL & ~ZMO, ALL & ~WBC]
-    for _ in range(2 if tier == 'quick' else 12):
-        pool.append(rng.getrandbits(64))
-    for _ in range(1 if tier == 'quick' else 6):      # random subsets of the five relevant bits (plus noise in the low word)
+SINGLES = [ZMO, ZMOD, WBC, KPV2, DAX]
+
+def cap_extras(rng, tier):
+    ex = [ZMO | ZMOD | WBC | KPV2 | DAX, ALL & ~ZMO, ALL & ~WBC, ALL & ~DAX]
+    for _ in range(3 if tier == 'quick' else 12):
+        ex.append(rng.getrandbits(64))
+    for _ in range(3 if tier == 'quick' else 8):      # random subsets of the five relevant bits (plus noise in the low word)
         w = rng.getrandbits(32) & ~(ZMO | ZMOD | WBC | KPV2)
-        for b in (ZMO, ZMOD, WBC, KPV2, DAX):
+        for b in SINGLES:
             if rng.random() < 0.5: w |= b
-        pool.append(w)
-    return pool
+        ex.append(w)
+    return ex
 
 def gen_cases(rng, tier, dflt):
+    """every combination of the configuration switches of each layer x capability words.  thorough: none, all, each
+    relevant bit alone, composites and random words for every combination; quick: none, all, two of the single bits
+    (rotating, so that every bit meets every switch over the run) and one composite/random word per combination."""
     import server_common
     known = server_common.fsopt_mask()        # VfsOptions.out_opts is an FsOptions: only known bits can be configured
-    pool = cap_pool(rng, tier)
+    extras = cap_extras(rng, tier)
+    pool = [0, ALL] + SINGLES + extras
     cases = []
     def add(layer, sw, oo, c1, c2):
         cases.append({'id': len(cases), 'layer': layer, 'sw': sw, 'out_opts': oo, 'cap1': c1, 'cap2': c2})
+    def caps_for(i, full):
+        if tier != 'quick': return pool
+        if not full: return [ALL, SINGLES[i % 5]]
+        return [0, ALL, SINGLES[i % 5], SINGLES[(i // 5 + i + 2) % 5], rng.choice(extras)]
+    def second(c1):
+        # the word of the INIT after DESTROY: often one that lacks what the first one had
+        return rng.choice([0, 0, c1, ALL & ~c1] + pool)
     for sw in range(16):                                   # vfs: no_open no_opendir no_writeback killpriv_v2
-        for c1 in pool:
-            add('vfs', sw, None, c1, rng.choice(pool))
+        for c1 in caps_for(sw, True):
+            add('vfs', sw, None, c1, second(c1))
         # configured out_opts other than the default: random, and the default without the zero-message bits
         for oo in (rng.getrandbits(64) & known, dflt & ~(ZMO | ZMOD), dflt | KPV2 | AOT):
-            add('vfs', sw, oo, rng.choice(pool), rng.choice(pool))
-    for pol in range(4):                                   # passthrough: do_import writeback no_open no_opendir killpriv_v2 x cache policy
+            c1 = rng.choice(pool); add('vfs', sw, oo, c1, second(c1))
+    for pol in (1, 0, 2, 3):                               # passthrough: do_import writeback no_open no_opendir killpriv_v2 x cache policy
         for sw5 in range(32):
             sw = sw5 | (pol << 5)
-            caps = pool if (pol == 1 or tier != 'quick') else [0, ALL, rng.choice(pool)]
-            for c1 in caps:
-                add('pt', sw, None, c1, rng.choice(pool))
+            for c1 in caps_for(sw5 + pol, pol == 1):
+                add('pt', sw, None, c1, second(c1))
     for sw in range(64):                                   # overlay: ... + perfile_dax
-        caps = pool if tier != 'quick' else [0, ALL, ZMO, WBC, DAX, rng.choice(pool), rng.choice(pool)]
-        for c1 in caps:
-            add('ovl', sw, None, c1, rng.choice(pool))
+        for c1 in caps_for(sw, True)[:(4 if tier == 'quick' else None)]:
+            add('ovl', sw, None, c1, second(c1))
     return cases
 
 RX = re.compile(r'^(\d+) I=(\S+) O=(\S+) D=(\S+) WB=(\S+) KP=(\S+) DAX=(\S+) R=(\S+) \| I=(\S+) O=(\S+) D=(\S+) WB=(\S+) KP=(\S+) DAX=(\S+)$')
@@ -157,11 +168,6 @@ def run(rng, tier, bindir, findings, broken):
     dflt = default_out_opts()
     if dflt is None:
         broken.append({'kind': 'translator', 'item': 'VfsOptions::default out_opts', 'error': 'expression not found'}); dflt = 0
-    # the model's default must be the source's
-    vals, errs = coq_eval_values('c12tog_dflt', HEADER, ['vfs_default_out'])
-    m = re.match(r'= (\d+)', vals[0] or '') if vals else None
-    if not m or int(m.group(1)) != dflt:
-        broken.append({'kind': 'correspondence', 'name': 'Model/InitToggles.v vfs_default_out vs VfsOptions::default()', 'case': {'source': dflt, 'model': vals}})
     cases = gen_cases(rng, tier, dflt)
     d = os.path.join(SCRATCH, 'c12'); os.makedirs(d, exist_ok=True)
     cf = os.path.join(d, 'toggle.cases')
@@ -194,12 +200,16 @@ def run(rng, tier, bindir, findings, broken):
         nontriv.add((c['layer'], c['sw'], c['out_opts'] is None, tuple(on(r1, p) for p in BITS), tuple(on(r2, p) for p in BITS)))
         if len(samples) < 3 and any(on(r1, p) for p in BITS):
             samples.append(dict(c, observed={'round1': r1, 'reinit': rr, 'round2': r2}))
-    ok, mk = coq_make(['Model/InitToggles.vo'])
-    if not ok: broken.append({'kind': 'proof', 'name': 'Model/InitToggles build', 'site': coq_error_site(mk)})
-    fails, errs = coq_check_cases('c12tog', HEADER, exprs, shard=150)
+    # (Model/InitToggles.vo is in the cone of Props/C12.vo, built by std_audit)
+    # the model's default out_opts must be the source's
+    exprs.append('(vfs_default_out =? %d)' % dflt); meta.append(None)
+    fails, errs = coq_check_cases('c12tog', HEADER, exprs, shard=(120 if tier == 'quick' else 250))
     if errs: broken.append({'kind': 'spec-eval', 'log': errs[0]})
     for i in fails:
         c = meta[i]
+        if c is None:
+            broken.append({'kind': 'correspondence', 'name': 'Model/InitToggles.v vfs_default_out vs VfsOptions::default()', 'case': {'source': dflt}})
+            continue
         if c['id'] in prop_failed: continue       # already reported as a failing input
         broken.append({'kind': 'correspondence', 'name': 'Model/InitToggles.v vs %s::init' % {'vfs': 'Vfs', 'pt': 'PassthroughFs', 'ovl': 'OverlayFs'}[c['layer']],
                        'case': dict(c, observed=obs[c['id']])})
